@@ -308,6 +308,63 @@ Definition dh_run (life k : nat) (fp demand : list Q) : result dh_out :=
             (flat_map (map dh_geo) years) ng).
 
 (* ------------------------------------------------------------------------------------------------ *)
+(* SurfacePlantSUTRA.Calculate (reservoir thermal energy storage): every second entry of the SUTRA profiles plus the last
+   one, split of the simulated heat into injected / produced, auxiliary heat up to the target, annual sums over blocks
+   of 730 steps *)
+Fixpoint every_other (l : list Q) : list Q :=
+  match l with
+  | [] => []
+  | x :: r => x :: match r with [] => [] | _ :: r' => every_other r' end
+  end.
+
+(* np.append(profile[0:-1:2], profile[-1]);  profile[-1] of an empty array is an IndexError *)
+Definition subsample (l : list Q) : option (list Q) :=
+  match l with [] => None | _ => Some (every_other (removelast l) ++ [last l 0]) end.
+
+(* SUTRATimeStep = TimeVector[-1] / len(TimeVector) *)
+Definition sutra_dt (tv : list Q) : Q := last tv 0 / natQ (length tv).
+
+Definition sutra_injected (dt sim : Q) : Q := (if Qltb 0 sim then 0 else sim) / dt / 1000.
+Definition sutra_produced (dt sim : Q) : Q := (if Qltb sim 0 then 0 else sim) / dt / 1000.
+Definition sutra_aux (dt target sim : Q) : Q := (if Qltb (target - sim) 0 then 0 else target - sim) / dt / 1000.
+Definition sutra_total (dt target sim : Q) : Q := sutra_produced dt sim + sutra_aux dt target sim.
+
+(* sum(series[i*730:(i+1)*730]) * SUTRATimeStep / 1000   (pumping: without the / 1000) *)
+Definition sutra_block (series : list Q) (i : nat) : list Q := slice (i * 730) ((i + 1) * 730) series.
+Definition sutra_annual (dt : Q) (series : list Q) (i : nat) : Q := sumQ_red (sutra_block series i) * dt / 1000.
+Definition sutra_pumping_kwh (dt : Q) (pump : list Q) (i : nat) : Q := sumQ_red (sutra_block pump i) * dt.
+
+(* Python round(): to the nearest integer, ties to even *)
+Definition py_round (q : Q) : Z :=
+  let f := Qfloor q in
+  let r := q - inject_Z f in
+  if Qltb r (1 # 2) then f else if Qltb (1 # 2) r then (f + 1)%Z else if Z.even f then f else (f + 1)%Z.
+
+Record sutra_out : Type := mk_sutra {
+  s_dt : Q; s_inj : list Q; s_prod : list Q; s_aux : list Q; s_tot : list Q;
+  s_ann_inj : list Q; s_ann_prod : list Q; s_ann_aux : list Q; s_ann_tot : list Q; s_pumpkwh : list Q; s_maxaux : Q }.
+
+Definition sutra_plant (time target sim pump : list Q) : result sutra_out :=
+  match subsample time, subsample target, subsample sim with
+  | Some tv, Some tg, Some sm =>
+      if negb (same_len tg sm) then Fail E_VALUE else
+      let dt := sutra_dt tv in
+      if Qeq_bool dt 0 then Fail E_NONFINITE else
+      let years := Z.to_nat (py_round (last tv 0 / 8766)) in
+      let inj := map (sutra_injected dt) sm in
+      let prod := map (sutra_produced dt) sm in
+      let aux := map2 (sutra_aux dt) tg sm in
+      let tot := map2 (sutra_total dt) tg sm in
+      let ann := fun ser => map (sutra_annual dt ser) (seq 0 years) in
+      match list_max (ann aux) with
+      | None => Fail E_VALUE                                   (* max() of an empty sequence *)
+      | Some mx => Ok (mk_sutra dt inj prod aux tot (ann inj) (ann prod) (ann aux) (ann tot)
+                                (map (sutra_pumping_kwh dt pump) (seq 0 years)) mx)
+      end
+  | _, _, _ => Fail E_INDEX
+  end.
+
+(* ------------------------------------------------------------------------------------------------ *)
 (* reflective checkers: the balances evaluated on implementation data (hook snapshots), in the kernel *)
 
 Definition check_extracted (tol n m cp tinj : Q) (tprod he : list Q) : bool :=
@@ -390,6 +447,26 @@ Definition check_dh (tol : Q) (life k : nat) (fp demand geo ng utils : list Q) (
             close tol (d_util o) util && all_close tol (d_annual_ng o) ann_ng && close tol (d_max_peak o) maxpk
   | Fail _ => false
   end.
+
+(* SUTRA, one block of raw profile entries (an even number of them: every second one is used) against the reported
+   series of the same steps; [annual] = the five reported annual figures of that year when the block is a whole year *)
+Definition check_sutra_points (tol dt : Q) (raw_target raw_sim inj prod aux tot : list Q) : bool :=
+  let tg := every_other raw_target in
+  let sm := every_other raw_sim in
+  same_len tg sm &&
+  all_close tol (map (sutra_injected dt) sm) inj && all_close tol (map (sutra_produced dt) sm) prod &&
+  all_close tol (map2 (sutra_aux dt) tg sm) aux && all_close tol (map2 (sutra_total dt) tg sm) tot.
+
+Definition check_sutra_year (tol dt : Q) (inj prod aux tot pump annual : list Q) : bool :=
+  Nat.eqb (length inj) 730 &&
+  all_close tol [sutra_annual dt inj 0; sutra_annual dt prod 0; sutra_annual dt aux 0; sutra_annual dt tot 0;
+                 sutra_pumping_kwh dt pump 0] annual.
+
+(* the scalars: time step, number of years, peak auxiliary demand *)
+Definition check_sutra_globals (tol tlast : Q) (nraw : nat) (dt : Q) (nyears : nat) (ann_aux : list Q) (maxaux : Q) : bool :=
+  close tol (tlast / natQ (nraw / 2 + 1)) dt &&
+  Z.eqb (py_round (tlast / 8766)) (Z.of_nat nyears) && Nat.eqb (length ann_aux) nyears &&
+  match list_max ann_aux with Some mx => close tol mx maxaux | None => false end.
 
 (* ------------------------------------------------------------------------------------------------ *)
 (* flat interface (direct calls of the real helpers are compared with these) *)
